@@ -37,6 +37,8 @@ RANGE_POP = int(os.environ.get("VERIF_C17_RANGE_POP", "0"))      # 1: `text.spli
 SKIP_RAISES = int(os.environ.get("VERIF_C17_SKIP_RAISES", "0"))  # 1: bare next(tokens) in tokens_to_spans -> RuntimeError past the end; 0: repaired (break; fix 1d638e8)
 MEASURE_SHORT = int(os.environ.get("VERIF_C17_MEASURE_SHORT", "0"))  # 1: __rich_measure__ with line numbers + code_width reports a maximum one cell short; 0: repaired (fix 51eccb0)
 
+GUESS_RAISES = int(os.environ.get("VERIF_C17_GUESS_RAISES", "0"))  # fixed in 52ad8fd, /repo is at 0 now.  1: Traceback._guess_lexer lets ClassNotFound escape: a readable file whose name no Pygments lexer claims (no / unknown extension) gets "no lexer for filename …" instead of its source (rich 9.10.0 as found); 0: repaired, what /repo does now (pending_fixes/C17-traceback-unknown-extension-shows-no-source.diff: fall back to the lexer "text")
+
 GUIDE = "│"
 CTL = {8, 11, 12, 13}
 LEXERS = ["python", "json", "html", "text", "no-such-lexer"]
@@ -328,6 +330,31 @@ def eval_numbered(rows, P, c, w):
     return None
 
 
+def gutter_exact(rows, c):
+    """The gutter character by character (statement of gutter_shows_pointer_and_number / folded_rows_have_blank_gutter):
+    a numbered row starts with the pointer iff its number is highlighted (two blanks otherwise), then the number right-justified
+    in `numbers_column_width - 2`, then one blank; every other row starts with `numbers_column_width + 1` blanks; numbers advance
+    by one per numbered row however many continuation rows lie between."""
+    ncw = len(str(c.start_line + c.code.count("\n"))) + 2
+    pointer = "> " if c.legacy else "❱ "
+    prev = None
+    for r in rows:
+        m = ROW_RE.match(r)
+        if m and len(m.group(1) + m.group(2) + m.group(3)) + 1 == ncw + 1:
+            num = int(m.group(3))
+            want = (pointer if num in c.highlight else "  ") + str(num).rjust(ncw - 2) + " "
+            if r[: ncw + 1] != want:
+                return "the gutter of row %r is %r, expected %r" % (r, r[: ncw + 1], want)
+            if prev is not None and num != prev + 1:
+                return "row number %d follows %d" % (num, prev)
+            prev = num
+        elif prev is not None and r[: ncw + 1] == " " * (ncw + 1):
+            continue
+        else:
+            return "row %r has neither a numbered gutter of %d characters nor a blank one" % (r, ncw + 1)
+    return None
+
+
 def eval_plain(rows, P, c, w):
     """Without line numbers: the rows are the source lines in order from the first (a range only cuts the end)."""
     if c.word_wrap and any(cell_len(l) > w or len(l) > w for l in P):
@@ -396,6 +423,8 @@ def evaluate(ctx, c, res, toks):
         return
     rows = res[1]
     why = eval_numbered(rows, P, c, w) if c.line_numbers else eval_plain(rows, P, c, w)
+    if why is None and c.line_numbers:
+        why = gutter_exact(rows, c)
     finding = None
     if why and STRIPNL and found and c.shown.expandtabs(c.tab_size).replace("\r\n", "\n").replace("\r", "\n").startswith("\n"):
         P2 = stripped_variant()
@@ -985,7 +1014,7 @@ def gen_module(rng):
     return src, lead, shape
 
 
-from lib_c17_exec import compile_only, run_module, run_pair  # noqa: E402  (their frames appear in every rendered traceback)
+from lib_c17_exec import compile_only, run_module, run_pair, throw  # noqa: E402  (their frames appear in every rendered traceback)
 
 
 def try_read(path):
@@ -1178,6 +1207,18 @@ def traceback_cases(ctx, rng):
             ctx.note(f"tb:shape={shape}")
             ctx.note(f"tb:leading-blank={min(lead, 6)}")
             render_and_check(info, src, path, [path], "Traceback.__rich_console__", "fresh-path")
+        # ---- (1b) the same kind of module under a file name no Pygments lexer claims (a script without extension, an unknown
+        #           extension) and under other known extensions: the file is readable, its failing line must be shown
+        for i, ext in enumerate(["", ".zzq", ".txt", ".pyx", ".unknownext", ".json", "", ".sh"] * (1 if ctx.quick else 20)):
+            src, lead, shape = gen_module(rng)
+            path = os.path.join(root, "script%d%s" % (i, ext))
+            with open(path, "w", encoding="utf-8", newline="") as f:
+                f.write(src)
+            info = run_module(path, src)
+            if info is None:
+                raise RuntimeError("generated module did not raise")
+            ctx.note("tb:extension=" + (ext or "none"))
+            render_and_check(info, src, path, [path], "Traceback.__rich_console__", "odd-extension " + (ext or "none"))
         # ---- (2) histories in ONE process over the SAME paths whose contents change between renders:
         #          what is shown must depend only on the files as they are when the traceback is rendered
         main_path = os.path.join(root, "reused_main.py")
@@ -1368,11 +1409,12 @@ def eval_traceback(out, frames, extra, ww, ig, src, path):
     # split into blocks at frame headers
     blocks = []
     for r in rows:
-        m = HEADER_RE.match(r)
+        m = HEADER_RE.match(r) or ANY_HEADER_RE.match(r)
         if m:
             blocks.append([m.group(1), int(m.group(2)), m.group(3), []])
         elif blocks and r != "":
             blocks[-1][3].append(r)
+    blocks = [b for b in blocks if not b[0].startswith("<")]  # frames without a file: header only (and locals), outside the statement
     want = [(fr.filename, fr.lineno) for fr in frames if not fr.filename.startswith("<")]
     if [(b[0], b[1]) for b in blocks] != want:
         return "frame headers %r differ from the traceback's frames %r" % ([(b[0], b[1]) for b in blocks], want), None
@@ -1392,6 +1434,10 @@ def eval_traceback(out, frames, extra, ww, ig, src, path):
             continue
         if [l.rstrip("\n") for l in lines] != [l.rstrip("\n") for l in now]:
             lines = now  # linecache did not notice a rewrite (same size and time stamp): the file itself is the reference
+        if lines and lineno <= len(lines) and srows and not any(ROW_RE_STRIPPED.match(r) for r in srows) and any("no lexer for filename" in r for r in srows):
+            # the file is readable, the frame's line exists, and rich shows an error row instead of the excerpt
+            return ("frame %s:%d: the file is readable and has %d lines, but %r is shown instead of its source line"
+                    % (filename, lineno, len(lines), srows[:2]), "traceback-unknown-extension-shows-no-source" if GUESS_RAISES else None)
         if not lines or lineno > len(lines):
             # the frame's line does not exist (any more): no row may be marked, and what is shown must be the file
             parsed, _w = parse_numbered(srows, row_re=ROW_RE_STRIPPED) if srows else ([], None)
@@ -1475,6 +1521,378 @@ def eval_numbered_stripped(parsed, P, c):
     return None
 
 
+# --------------------------------------------------------------------------------------------- exception chains, stacks (deepening 4)
+CHAIN_NAMES = ["ErrA", "ErrB", "ErrC", "ErrD", "ErrFalsy", "SyntaxError"]
+ANY_HEADER_RE = re.compile(r"^(/\S*|<[^>]*>):(\d+) in (\S+)\s*$")
+EXC_LINE_RE = re.compile(r"^(\w+): ")
+
+
+def _chain_classes():
+    classes = {n: type(n, (Exception,), {}) for n in CHAIN_NAMES[:4]}
+    classes["ErrFalsy"] = type("ErrFalsy", (Exception,), {"__len__": lambda self: 0})  # bool(exc) is False
+    classes["SyntaxError"] = SyntaxError
+    return classes
+
+
+def _thrower_sources():
+    """Three small modules whose `go(exc, depth)` raises `exc` through depth + 1 frames, at different line numbers."""
+    out = []
+    for lead, pad in ((0, 0), (2, 1), (5, 3)):
+        out.append("\n" * lead + "def go(exc, depth):\n" + "    # filler\n" * pad + "    if depth:\n        return go(exc, depth - 1)\n" + "\n" * pad + "    raise exc\n")
+    return out
+
+
+def enc_exc_tree(e, name_of, file_id, depth=0):
+    """The exception object as `Traceback.extract` can see it, in the driver's prefix form."""
+    import traceback as pytb
+
+    if e is None:
+        return "-"
+    if depth > 8:
+        raise RuntimeError("exception chain too deep for the encoder")
+    frames = ";".join("%d,%d" % (file_id(f.f_code.co_filename), ln) for f, ln in pytb.walk_tb(e.__traceback__)) or "."
+    return "N %d %d %d %d %d %s %s %s" % (name_of(e), int(bool(e)), int(e.__traceback__ is not None), int(bool(e.__suppress_context__)),
+                                          int(isinstance(e, SyntaxError)), frames,
+                                          enc_exc_tree(e.__cause__, name_of, file_id, depth + 1), enc_exc_tree(e.__context__, name_of, file_id, depth + 1))
+
+
+def stdlib_chain(e):
+    """OLDEST first [(exception, how the NEXT NEWER one is linked to it)], by the standard library's own rule
+    (traceback.TracebackException: __cause__ when it is not None, else __context__ unless __suppress_context__);
+    also whether every designated exception is truthy and was raised (has a traceback)."""
+    chain, usable, link, seen = [], True, None, set()
+    while e is not None and id(e) not in seen:
+        seen.add(id(e))
+        chain.append((e, link))
+        if e.__cause__ is not None:
+            e, link = e.__cause__, "cause"
+        elif e.__context__ is not None and not e.__suppress_context__:
+            e, link = e.__context__, "context"
+        else:
+            break
+        if not e or e.__traceback__ is None:
+            usable = False
+    chain.reverse()
+    return chain, usable
+
+
+def parse_items(out, file_id):
+    """The printed traceback as the list of things `Traceback.__rich_console__` yields (driver's encoding)."""
+    items, cur, kind = [], None, None
+    for r in out.split("\n"):
+        if r.startswith("╭"):
+            kind = "P" if "Traceback" in r and "most recent call last" in r else "S"
+            cur = []
+        elif r.startswith("╰") and cur is not None:
+            items.append("P " + ";".join("%d,%d" % f for f in cur) if kind == "P" else "S")
+            cur = None
+        elif cur is not None:
+            m = BORDER_RE.match(r)
+            h = ANY_HEADER_RE.match(m.group(1).rstrip(" ")) if m else None
+            if h and kind == "P":
+                cur.append((file_id(h.group(1)), int(h.group(2))))
+        elif "direct cause of the following exception" in r:
+            items.append("L 1")
+        elif "During handling of the above exception" in r:
+            items.append("L 0")
+        else:
+            m = EXC_LINE_RE.match(r)
+            if m and m.group(1) in CHAIN_NAMES:
+                items.append("E %d %d" % (CHAIN_NAMES.index(m.group(1)), int(bool(items) and items[-1] == "S")))
+    return items
+
+
+def chain_cases(ctx, rng):
+    """`Traceback.extract` and the order / link sentences of `Traceback.__rich_console__` on exception objects built here:
+    every link configuration two levels deep (cause x context x suppress, each linked exception raised / never raised /
+    falsy), then seeded random trees up to five levels with mixed links, shared objects, SyntaxErrors, unraised roots."""
+    import rich.traceback as rtb
+    from rich.console import Console
+
+    root = os.path.join(TB_ROOT, "chain_%d_%d" % (os.getpid(), ctx.seed))
+    shutil.rmtree(root, ignore_errors=True)
+    os.makedirs(root)
+    classes = _chain_classes()
+    paths, gos = [], []
+    for i, src in enumerate(_thrower_sources()):
+        pth = os.path.join(root, "thrower%d.py" % i)
+        with open(pth, "w", encoding="utf-8") as f:
+            f.write(src)
+        ns = {}
+        exec(compile(src, pth, "exec"), ns)
+        paths.append(pth)
+        gos.append(ns["go"])
+    exec_path = os.path.abspath(sys.modules[throw.__module__].__file__)
+    files = paths + [exec_path]
+
+    def file_id(name):
+        name = os.path.abspath(name) if not name.startswith("<") else name
+        if name not in files:
+            files.append(name)
+        return files.index(name)
+
+    def name_of(e):
+        return CHAIN_NAMES.index(type(e).__name__)
+
+    counter = [0]
+
+    def make(kind):
+        """kind: 'raised' | 'unraised' | 'falsy' | 'syntax' -> a new exception object"""
+        counter[0] += 1
+        if kind == "falsy":
+            e = classes["ErrFalsy"]("falsy %d" % counter[0])
+        elif kind == "syntax":
+            e = SyntaxError("bad thing %d" % counter[0], (paths[0], 1, 2, "def go(exc, depth):\n"))
+        else:
+            e = classes[rng.choice(CHAIN_NAMES[:4])]("msg %d" % counter[0])
+        if kind != "unraised":
+            e = throw(gos[counter[0] % 3], e, counter[0] % 3)
+        return e
+
+    def link(e, cause, context, suppress):
+        if cause is not None:
+            e.__cause__ = cause
+        e.__context__ = context
+        e.__suppress_context__ = suppress
+        return e
+
+    def judge(e, label, render):
+        inp = {"label": label, "tree": enc_exc_tree(e, name_of, file_id)}
+        ctx.note("chain:" + label.split(" ")[0])
+        try:
+            trace = rtb.Traceback.extract(type(e), e, e.__traceback__)
+        except BaseException as err:
+            ctx.check(False, "Traceback.extract", inp, "extract raised %s: %s" % (type(err).__name__, err))
+            return
+        got = "|".join("%d:%d:%d:%s" % (CHAIN_NAMES.index(st.exc_type) if st.exc_type in CHAIN_NAMES else 99, int(st.is_cause), int(st.syntax_error is not None),
+                                         ";".join("%d,%d" % (file_id(fr.filename), fr.lineno) for fr in st.frames)) for st in trace.stacks)
+        ctx.case("tb_extract", [inp["tree"]], got, shape="stacks%d" % min(len(trace.stacks), 5), sample="extract " + label)
+        # direct evaluation, oracle = the standard library's chaining rule and walk_tb on the exception objects themselves
+        import traceback as pytb
+        chain, usable = stdlib_chain(e)
+        ctx.note("chain:length=%d" % len(chain))
+        if not usable:
+            ctx.note("chain:skipped-designated-exception-never-raised-or-falsy")  # rich leaves those out; outside AllUsable
+        else:
+            shown = list(reversed(trace.stacks))
+            why = None
+            if [st.exc_type for st in shown] != [type(x).__name__ for x, _ in chain]:
+                why = "stacks (oldest first) are %r, the chain is %r" % ([st.exc_type for st in shown], [type(x).__name__ for x, _ in chain])
+            else:
+                for k, (st, (x, lk)) in enumerate(zip(shown, chain)):
+                    own = [(os.path.abspath(f.f_code.co_filename), ln) for f, ln in pytb.walk_tb(x.__traceback__)]
+                    if [(fr.filename, fr.lineno) for fr in st.frames] != own:
+                        why = "stack %d (%s) holds frames %r, the exception's own traceback has %r" % (k, st.exc_type, [(fr.filename, fr.lineno) for fr in st.frames], own)
+                        break
+                    if k + 1 < len(chain) and st.is_cause != (lk == "cause"):
+                        why = "stack %d (%s) has is_cause=%r, the next newer exception reaches it through __%s__" % (k, st.exc_type, st.is_cause, lk)
+                        break
+            ctx.check(why is None, "Traceback.extract", inp, why or "")
+        if not render:
+            return
+        console = Console(file=io.StringIO(), width=160, color_system=None, force_terminal=False, legacy_windows=False)
+        try:
+            console.print(rtb.Traceback(trace, width=150, extra_lines=rng.choice([0, 1, 3])))
+            out = ANSI_RE.sub("", console.file.getvalue())
+        except BaseException as err:
+            ctx.check(False, "Traceback(exception chain order)", inp, "printing raised %s: %s" % (type(err).__name__, err))
+            return
+        items = parse_items(out, file_id)
+        ctx.case("tb_items", [inp["tree"]], "|".join(items), shape="items%d" % min(len(items), 9), sample="printed " + label)
+        if usable:
+            want = []
+            for k, (x, lk) in enumerate(chain):
+                own = [(file_id(f.f_code.co_filename), ln) for f, ln in pytb.walk_tb(x.__traceback__)]
+                if own:
+                    want.append("P " + ";".join("%d,%d" % f for f in own))
+                syn = isinstance(x, SyntaxError)
+                if syn:
+                    want.append("S")
+                want.append("E %d %d" % (name_of(x), int(syn)))
+                if k + 1 < len(chain):
+                    want.append("L %d" % int(lk == "cause"))
+            ctx.check(items == want, "Traceback(exception chain order)", inp,
+                      "" if items == want else "printed %r, the chain (oldest first, own frames, matching sentence) is %r" % (items, want))
+
+    try:
+        # ---- bounded-exhaustive: root config x config of the exception the walk goes to
+        kinds = [None, "raised", "unraised", "falsy"]
+        configs = [(ck, xk, sp, same) for ck in kinds for xk in kinds for sp in (False, True) for same in (False, True)
+                   if not (same and (ck is None or ck != xk))]
+        n = 0
+        for c1 in configs:
+            for c2 in (configs if not ctx.quick else configs[:: 3] + [configs[-1]]):
+                def build(cfg, child_cfg):
+                    ck, xk, sp, same = cfg
+                    cause = make(ck) if ck else None
+                    context = cause if same else (make(xk) if xk else None)
+                    for child in {id(x): x for x in (cause, context) if x is not None}.values():
+                        if child_cfg is not None:
+                            k2, x2, s2, same2 = child_cfg
+                            c2_ = make(k2) if k2 else None
+                            x2_ = c2_ if same2 else (make(x2) if x2 else None)
+                            link(child, c2_, x2_, s2)
+                    return link(make("raised"), cause, context, sp)
+                e = build(c1, c2)
+                n += 1
+                judge(e, "exhaustive %r/%r" % (c1, c2), render=(n % (18 if ctx.quick else 2) == 0))
+        ctx.note("chain:exhaustive-roots", n)
+        # ---- seeded random trees
+        def rand_tree(depth):
+            kind = rng.choice(["raised"] * 6 + ["syntax", "falsy", "unraised"])
+            e = make(kind)
+            if depth <= 0:
+                return e
+            r = rng.random()
+            cause = rand_tree(depth - 1) if r < 0.45 else None
+            context = cause if (cause is not None and rng.random() < 0.5) else (rand_tree(depth - 1) if rng.random() < 0.6 else None)
+            return link(e, cause, context, rng.random() < (0.7 if cause is not None else 0.25))
+        for i in range(90 if ctx.quick else 3000):
+            e = rand_tree(rng.choice([1, 2, 3, 3, 4]))
+            if rng.random() < 0.1:
+                e.__traceback__ = None  # a root that was never raised: Traceback.extract(type, value, None)
+            judge(e, "random %d" % i, render=(i % 3 == 0 or not ctx.quick))
+        ctx.flush()
+    finally:
+        shutil.rmtree(root, ignore_errors=True)
+        try:
+            os.rmdir(TB_ROOT)
+        except OSError:
+            pass
+
+
+STACK_FILE_NAMES = ["a.py", "b.py", "script", "tool.zzq", "notes.txt", "data.json", "mod.pyx", "Makefile", "run.sh", "x.unknownext", "<string>", "<frozen importlib>", "gone.py", "gone"]
+
+
+def stack_cases(ctx, rng):
+    """`Traceback._render_stack` on stacks built with the public dataclasses (Trace / Stack / Frame): file names with `.py`,
+    with other known extensions, without extension, with an extension no lexer claims, `<…>` names, files that do not exist;
+    the same file several times in one stack.  Correspondence `tb_stack` (what is yielded per frame), and the traceback clause
+    on the printed panel: every frame of a readable file shows its line, marked."""
+    import rich.traceback as rtb
+    from pygments.lexers import find_lexer_class_for_filename
+    from rich.console import Console
+
+    root = os.path.join(TB_ROOT, "stack_%d_%d" % (os.getpid(), ctx.seed))
+    shutil.rmtree(root, ignore_errors=True)
+    os.makedirs(root)
+    recorded = []
+    RealSyntax = rtb.Syntax
+
+    class RecordingSyntax(RealSyntax):
+        def __init__(self, *a, **k):
+            super().__init__(*a, **k)
+            recorded.append(self)
+
+    rtb.Syntax = RecordingSyntax
+    try:
+        n_rounds = 60 if ctx.quick else 1500
+        for i in range(n_rounds):
+            # the file system of this round
+            names = rng.sample(STACK_FILE_NAMES, rng.choice([1, 2, 3, 4, 6]))
+            if i < len(STACK_FILE_NAMES):
+                names = [STACK_FILE_NAMES[i]] + [x for x in names if x != STACK_FILE_NAMES[i]]  # every name leads a stack once
+            full, contents = [], []
+            for nm in names:
+                if nm.startswith("<"):
+                    full.append(nm)
+                    contents.append(None)
+                    continue
+                pth = os.path.join(root, nm)
+                full.append(pth)
+                if nm.startswith("gone"):
+                    if os.path.exists(pth):
+                        os.remove(pth)
+                    contents.append(None)
+                    continue
+                lines = ["\n" * 0 + rng.choice(["x = %d" % k, "    y = f(%d)" % k, "def g%d():" % k, "\tz = 'あ'", "# c %d" % k, "v = [1, 2, %d]" % k]) for k in range(rng.choice([1, 2, 5, 12]))]
+                text = "\n" * rng.choice([0, 0, 1, 3]) + "\n".join(lines) + rng.choice(["\n", ""])
+                with open(pth, "w", encoding="utf-8", newline="") as f:
+                    f.write(text)
+                contents.append(text)
+            frames = []
+            for _ in range(rng.choice([1, 2, 3, 5])):
+                k = 0 if not frames and i < len(STACK_FILE_NAMES) else rng.randrange(len(names))
+                if contents[k] is None:
+                    ln = rng.randint(1, 9)
+                else:
+                    src_lines = contents[k].split("\n")
+                    cand = [j + 1 for j, l in enumerate(src_lines) if l.strip()]
+                    ln = rng.choice(cand)
+                frames.append(rtb.Frame(filename=full[k], lineno=ln, name="fn%d" % len(frames)))
+            extra = rng.choice([0, 1, 3, 3])
+            ig = rng.random() < 0.5
+            stack = rtb.Stack(exc_type="ErrA", exc_value="boom", frames=frames)
+            tb = rtb.Traceback(rtb.Trace(stacks=[stack]), width=150, extra_lines=extra, indent_guides=ig)
+            console = Console(file=io.StringIO(), width=160, color_system=None, force_terminal=False, legacy_windows=False)
+            inp = {"files": dict(zip(full, contents)), "frames": [(fr.filename, fr.lineno) for fr in frames], "extra_lines": extra, "indent_guides": ig}
+            del recorded[:]
+            linecache.clearcache()
+            try:
+                console.print(tb)
+                out = ANSI_RE.sub("", console.file.getvalue())
+            except BaseException as err:
+                ctx.check(False, "Traceback._render_stack(frames)", inp, "printing raised %s: %s" % (type(err).__name__, err))
+                continue
+            for nm in names:
+                ctx.note("stack:file=" + (nm if nm.startswith("<") else os.path.splitext(nm)[1] or "no-extension"))
+            # ---- what was yielded, read back from the panel
+            rows = [m.group(1).rstrip(" ") for m in (BORDER_RE.match(r) for r in out.split("\n")) if m]
+            items, k, syn_k = [], 0, 0
+            while k < len(rows):
+                r = rows[k]
+                h = ANY_HEADER_RE.match(r)
+                if h and h.group(1) in full:
+                    items.append("H %d %s" % (full.index(h.group(1)), h.group(2)))
+                    k += 1
+                elif r == "":
+                    nxt = rows[k + 1] if k + 1 < len(rows) else None
+                    if nxt is not None and nxt != "" and not ROW_RE_STRIPPED.match(nxt) and not (ANY_HEADER_RE.match(nxt) and ANY_HEADER_RE.match(nxt).group(1) in full):
+                        items.append("E")  # "\n{error}": a blank row and the message (which may wrap)
+                        k += 1
+                        while k < len(rows) and rows[k] != "" and not ROW_RE_STRIPPED.match(rows[k]) and not (ANY_HEADER_RE.match(rows[k]) and ANY_HEADER_RE.match(rows[k]).group(1) in full):
+                            k += 1
+                    else:
+                        items.append("B")
+                        k += 1
+                elif ROW_RE_STRIPPED.match(r):
+                    syn = recorded[syn_k] if syn_k < len(recorded) else None
+                    syn_k += 1
+                    if syn is None:
+                        items.append("X ? ? ?")
+                    else:
+                        items.append("X %d %d %s" % (min(syn.highlight_lines) if syn.highlight_lines else 0, int(syn.lexer_name != "text"), enc_str(syn.code)))
+                    while k < len(rows) and rows[k] != "" and not (ANY_HEADER_RE.match(rows[k]) and ANY_HEADER_RE.match(rows[k]).group(1) in full):
+                        k += 1
+                else:
+                    items.append("?" + r[:20])
+                    k += 1
+            known = []
+            for nm in names:
+                ext = os.path.splitext(nm)[-1]
+                known.append(int(bool(rtb.Traceback.LEXERS.get(ext)) or find_lexer_class_for_filename(nm) is not None))
+            if all(c is None or representable(c) for c in contents):
+                ctx.case("tb_stack", [GUESS_RAISES, " ".join(str(int(nm.startswith("<"))) for nm in names), " ".join(map(str, known)),
+                                      " ".join(str(int(c is not None)) for c in contents), enc_str_list([c or "" for c in contents]),
+                                      ";".join("%d,%d" % (full.index(fr.filename), fr.lineno) for fr in frames)],
+                         "|".join(items), shape="frames%d" % len(frames), sample="_render_stack %r" % [(os.path.basename(fr.filename), fr.lineno) for fr in frames])
+            # ---- the traceback clause on the printed panel (files read at this moment)
+            why, finding = eval_traceback(out, frames, extra, False, ig, "", "")
+            ctx.check(why is None, "Traceback._render_stack(frames)", inp, why or "", finding=finding)
+            # every frame, special or not, has its header, in call order
+            heads = [(h.group(1), int(h.group(2))) for h in (ANY_HEADER_RE.match(r) for r in rows) if h and h.group(1) in full]
+            ctx.check(heads == [(fr.filename, fr.lineno) for fr in frames], "Traceback._render_stack(frames)", inp,
+                      "frame headers %r, the stack's frames are %r" % (heads, [(fr.filename, fr.lineno) for fr in frames]))
+        ctx.flush()
+    finally:
+        rtb.Syntax = RealSyntax
+        shutil.rmtree(root, ignore_errors=True)
+        try:
+            os.rmdir(TB_ROOT)
+        except OSError:
+            pass
+
+
 # --------------------------------------------------------------------------------------------- entry
 def run(ctx):
     rng = ctx.rng
@@ -1497,6 +1915,8 @@ def run(ctx):
     lib_syntax_measure.run(ctx, 0.4 if ctx.quick else 4.0)  # C09's clause for Syntax + the correspondence of __rich_measure__ with measureV
     history_cases(ctx, rng)
     traceback_cases(ctx, rng)
+    chain_cases(ctx, rng)
+    stack_cases(ctx, rng)
     ctx.rule = (
         "helpers: every string <= 5/6 over small alphabets (expandtabs, preprocessing, split, remove_suffix, highlight x all ranges, "
         "indent guides on line lists, slices); rendering: every source <= %d over %r x {python, unknown lexer} x 10 range shapes "
@@ -1553,7 +1973,16 @@ MANIFEST = {
     "file length / indent guides); render_history_independent + stack_cache_transparent (what a traceback shows depends only on the files as "
     "they are when it is rendered); render_pure / render_pure_rows (any number of renders of ONE Syntax object answer what a fresh one "
     "answers; witness cached_text_would_decay: a Text remembered on the instance and cropped in place loses a range-ending blank line from "
-    "the second render on). Proved for the repaired variant; `old_*` witnesses (decide) for the three defects. Tie: every run renders "
+    "the second render on); deepening round 4 (Model/SyntaxTrace.lean, any number of exceptions / frames / rows): chain_is_shown_oldest_first (Traceback.extract + __rich_console__ "
+    "on every finite exception tree whose designated older exceptions were raised: the chain by Python's own rule — __cause__, else __context__ unless "
+    "__suppress_context__ — oldest first, each exception with its own frames, 'direct cause' exactly between an exception and its __cause__, 'during "
+    "handling' for __context__), render_stack_frame_by_frame (_render_stack = per-frame contribution read straight from the file system: cache "
+    "transparent, unreadable files not remembered, call order, blank separators), readable_frame_shows_marked_line (REPAIRED variant of "
+    "_guess_lexer: every frame of a readable file, whatever its name, gets header + Syntax(file content now, range lineno±extra, highlight {lineno}) "
+    "whose single marked row is numbered lineno and shows line lineno) + witness old_unknown_extension_shows_no_source (AS FOUND = /repo now); "
+    "gutter_shows_pointer_and_number (gutter character by character: pointer iff highlighted, right-justified number, blank; numbers_column_width+1 long), "
+    "folded_rows_have_blank_gutter / wordwrap_rows_numbered_once (word wrap: numbered gutter on the first row of a logical line, blank gutter on "
+    "continuation rows, number advancing once per logical line; the second one on the render path renderW). Proved for the repaired variant; `old_*` witnesses (decide) for the defects. Tie: every run renders "
     "~37k real Syntax objects in the quick tier (5 lexers incl. unknown, every option axis incl. dedent, bounded-exhaustive sources <=4 over "
     "{a,space,newline,tab,wide} x 10 range shapes, every non-ASCII/control whitespace at line starts, zero-width characters at the crop edge) "
     "through a real Console and compares ALL rows character for character with the model fed the real Pygments token stream — word-wrapped "
@@ -1563,8 +1992,18 @@ MANIFEST = {
     "chained exceptions; SyntaxError stacks) checked against the files read at that moment; every case re-rendered later in shuffled order and "
     "through one reused Syntax object, and the SAME unchanged object rendered three times (ranges ending on blank lines included); under every "
     "exception header of a chained traceback exactly the frames of that exception's own __traceback__ (chain walked from the exception "
-    "objects: explicit, implicit, three-level, suppressed) and the matching link sentence; plus direct evaluation of the statement (characters AND styles) on rich's own output.",
-    "note": "PARTIAL where stated: (1) the Pygments lexer and textwrap.dedent are parameters (contract checked per case, not proved); (2) theorems "
+    "objects: explicit, implicit, three-level, suppressed) and the matching link sentence; NEW: tb_extract / tb_items (exception objects built in the harness: every "
+    "link configuration two levels deep — cause x context in {none, raised, never raised, falsy} x suppress x same object, 532 roots — + ~90 random "
+    "trees to five levels incl. SyntaxErrors and unraised roots; stacks compared with the model, ~60 printed and parsed back into panels / lines / link "
+    "sentences; oracle = the standard library's chaining rule + walk_tb on the objects), tb_stack (60 stacks built from the public Trace/Stack/Frame "
+    "dataclasses over file names with .py / other known / no / unknown extension, <…> names, missing files, repeated files), 8 raising modules at "
+    "extension-less / odd-extension paths, and the gutter compared character by character on every numbered render; plus direct evaluation of the statement (characters AND styles) on rich's own output.",
+    "note": "Round-4 finding traceback-unknown-extension-shows-no-source, FIXED in 52ad8fd (flag GUESS_RAISES = 0 = /repo now; "
+    "pending_fixes/C17-traceback-unknown-extension-shows-no-source.diff is applied): Traceback._guess_lexer let Pygments' "
+    "ClassNotFound escape, so a frame in a READABLE file whose name no lexer claims (script without extension, unknown extension) shows 'no lexer for "
+    "filename … found' instead of its source line. Not claimed about the chain: an exception that was never raised (no __traceback__) or is falsy is "
+    "left out by rich where Python's own traceback shows it (hypothesis AllUsable; ~430 generated trees counted, not judged); exception graphs are "
+    "finite trees; names/messages/locals are not modelled. PARTIAL where stated: (1) the Pygments lexer and textwrap.dedent are parameters (contract checked per case, not proved); (2) theorems "
     "assume a clean shown text (no BS/VT/FF/CR, no BOM), range end >= 0, tab_size >= 1 with indent guides, start_line >= 0, and room to write a "
     "row under word wrap; (3) the folding of word-wrapped lines is C02's model/theorems (used here row by row, not re-proved); the 5-15 of "
     "~100k requests still answered `unmodelled` are lines cropped through a zero-width character whose spans were shifted by control-character "
@@ -1576,8 +2015,8 @@ MANIFEST = {
     "cell-width model; C02/C05's Text.wrap model. Three genuine defects found, all fixed in /repo: stripnl=True drops leading blank lines "
     "(fix 92fb879), the bare next() past the end raises (fix 1d638e8), and a blank line that ends a line_range is lost / an empty selection under "
     "indent guides shows a (possibly marked) row (fix bc6c38f). Variant flags, all at the repaired value: STRIPNL = 0, SKIP_RAISES = 0, "
-    "RANGE_POP = 0 (1 = rich 9.10.0 as found; the Text/Wrap model flags are taken from props.c02). No known finding is open for C17: with "
-    "the flags at 0 the check prints no KNOWN-FINDING line (the slugs syntax-stripnl-drops-blank-lines, syntax-range-start-beyond-end-raises, "
+    "RANGE_POP = 0, and GUESS_RAISES = 0 (fixed in 52ad8fd, see the start of this note) (1 = rich 9.10.0 as found; the Text/Wrap model flags are taken from props.c02). Of the first three no finding is open: with "
+    "those flags at 0 the check prints no KNOWN-FINDING line (the slugs syntax-stripnl-drops-blank-lines, syntax-range-start-beyond-end-raises, "
     "syntax-range-drops-trailing-blank-line, syntax-guides-empty-selection-shows-row and their traceback-* forms are attached only when a flag is 1).",
     "design_ref": "DESIGN.md section 7 (C17) and section 8 (F13)",
 }
